@@ -26,10 +26,17 @@ def run(c):
               "redundant @v1/@v0); the universe, the model and the reference are over clean paths, the spelled→clean map is "
               "the harness's own cleaning rule (not dawn's CleanPath). Resolver reuse: one Resolver, then a fresh one over "
               "the cache it filled, resolves root A, one or two other roots, and A again; every answer is judged against the "
-              "reference of its own root and the model is run on every root."),
+              "reference of its own root and the model is run on every root. In half of the universes the repository also has "
+              "look-alike tags (vX.Y, vX.Y.Z+meta: semver-equal to a canonical tag, listed before it, on a revision whose "
+              "dawn.toml differs) — not part of the universe, since a requirement names canonical versions only; in half of "
+              "the cases two thirds of the fetched trees also ship a legacy `.dawnconfig` with other requirements (dawn.toml "
+              "counts). Fault injection, every case: the n-th fetch fails once — the resolution must be an error or the "
+              "reference answer, and the retries with the same resolver and with a fresh one over the same cache directory "
+              "must give the reference answer."),
         judge_note="BuildList map (without the root entry) == reachability/max reference over the intended universe; cmpVersion == "
                    "reference order on canonical versions; list has each path once; "
-                   "error iff a reachable requirement cannot be fetched; 5 repeats across cold/disk/mem caches and a permuted "
+                   "error iff a reachable requirement cannot be fetched; resolver reuse over several roots; injected fetch failure "
+                   "then retry; 5 repeats across cold/disk/mem caches and a permuted "
                    "declaration order give the same answer")
 
 
